@@ -179,25 +179,6 @@ macro_rules! k2 {
         }
     };
 }
-macro_rules! k2s {
-    ($name:ident, $t:ty, $reff:ident, $n:expr, $u:literal, $radix:expr, $fmt:expr) => {
-        mod $name {
-            use super::*;
-            k2!(h, $t, $reff, $n, $u, $radix, $fmt);
-            #[kani::proof]
-            #[kani::unwind($u)]
-            fn underflow_witness() {
-                const FMT: u128 = $fmt;
-                const OPTS: ParseIntegerOptions = ParseIntegerOptions::new();
-                let buf: [u8; $n] = kani::any();
-                kani::assume(buf[0] == b'-');
-                let c = lc::parse_with_options::<$t, FMT>(&buf, &OPTS);
-                kani::cover!(matches!(c, Err(Error::Underflow(_))), "underflow reachable");
-                kani::cover!(matches!(c, Ok(v) if v == <$t>::MIN), "MIN parsed");
-            }
-        }
-    };
-}
 k2!(k2_u8_5, u8, ref_int_u64, 5, 7, 10, STANDARD);
 k2!(k2_i8_5, i8, ref_int_u64, 5, 7, 10, STANDARD);
 k2!(k2_u16_7, u16, ref_int_u64, 7, 9, 10, STANDARD);
@@ -262,17 +243,17 @@ macro_rules! k2w {
     };
 }
 // u32::MAX = 4294967295, i32: 2147483647/8
-k2w!(k2w_u32, u32, ref_int_u64, b"4294", 4, 14, 9);
-k2w!(k2w_i32, i32, ref_int_u64, b"2147", 4, 14, 9);
+k2w!(k2w_u32, u32, ref_int_u64, b"4294", 4, 14, 16);
+k2w!(k2w_i32, i32, ref_int_u64, b"2147", 4, 14, 16);
 // u64::MAX = 18446744073709551615 ; i64::MAX = 9223372036854775807
-k2w!(k2w_u64, u64, ref_int_u128, b"18446744073709", 14, 24, 16);
-k2w!(k2w_i64, i64, ref_int_u128, b"9223372036854", 13, 23, 15);
-k2w!(k2w_usize, usize, ref_int_u128, b"18446744073709", 14, 24, 16);
-k2w!(k2w_isize, isize, ref_int_u128, b"9223372036854", 13, 23, 15);
+k2w!(k2w_u64, u64, ref_int_u128, b"18446744073709", 14, 24, 26);
+k2w!(k2w_i64, i64, ref_int_u128, b"9223372036854", 13, 23, 25);
+k2w!(k2w_usize, usize, ref_int_u128, b"18446744073709", 14, 24, 26);
+k2w!(k2w_isize, isize, ref_int_u128, b"9223372036854", 13, 23, 25);
 // u128::MAX = 340282366920938463463374607431768211455 (39 digits)
 // i128::MAX = 170141183460469231731687303715884105727
-k2w!(k2w_u128, u128, ref_int_u128, b"340282366920938463463374607431768", 33, 43, 35);
-k2w!(k2w_i128, i128, ref_int_u128, b"170141183460469231731687303715884", 33, 43, 35);
+k2w!(k2w_u128, u128, ref_int_u128, b"340282366920938463463374607431768", 33, 43, 45);
+k2w!(k2w_i128, i128, ref_int_u128, b"170141183460469231731687303715884", 33, 43, 45);
 
 /// K4: other radices (features power-of-two / radix).
 #[cfg(feature = "power-of-two")]
@@ -459,3 +440,53 @@ mod swar {
         swar8!(swar8_r9, 9, NumberFormatBuilder::from_radix(9));
     }
 }
+
+/// R1 (C11): partial and complete integer parsers agree.
+macro_rules! r1 {
+    ($name:ident, $t:ty, $n:expr, $u:literal) => {
+        #[kani::proof]
+        #[kani::unwind($u)]
+        fn $name() {
+            let buf: [u8; $n] = kani::any();
+            let len: usize = kani::any();
+            kani::assume(len <= $n);
+            let s = &buf[..len];
+            let c = lc::parse::<$t>(s);
+            let p = lc::parse_partial::<$t>(s);
+            match (c, p) {
+                (Ok(v), Ok((w, n))) => {
+                    assert!(n == len, "complete accepted but partial stopped early");
+                    assert!(v == w, "complete and partial values differ");
+                },
+                (Ok(_), Err(_)) => assert!(false, "complete accepted, partial rejected"),
+                (Err(_), Ok((_, n))) => assert!(n != len, "partial consumed everything, complete rejected"),
+                (Err(_), Err(_)) => {},
+            }
+            if let Ok((w, n)) = p {
+                if n > 0 && n < len {
+                    let c2 = lc::parse::<$t>(&s[..n]);
+                    match c2 {
+                        Ok(v2) => assert!(v2 == w, "prefix re-parse value differs"),
+                        Err(_) => assert!(false, "prefix accepted by the partial parser is rejected by the complete parser"),
+                    }
+                    kani::cover!(true, "prefix re-parse exercised");
+                }
+            }
+            kani::cover!(c.is_ok() && len == $n, "complete accepts");
+        }
+    };
+}
+r1!(r1_u8_4, u8, 4, 6);
+r1!(r1_i8_4, i8, 4, 6);
+r1!(r1_u16_4, u16, 4, 6);
+r1!(r1_i16_4, i16, 4, 6);
+r1!(r1_u32_4, u32, 4, 6);
+r1!(r1_i32_4, i32, 4, 6);
+r1!(r1_u64_4, u64, 4, 6);
+r1!(r1_i64_4, i64, 4, 6);
+r1!(r1_u128_4, u128, 4, 6);
+r1!(r1_i128_4, i128, 4, 6);
+r1!(r1_u8_3, u8, 3, 5);
+r1!(r1_i8_3, i8, 3, 5);
+r1!(r1_i32_3, i32, 3, 5);
+r1!(r1_u64_3, u64, 3, 5);
